@@ -247,9 +247,10 @@ def fill_roundtrip(ctx, rng, tmp, read_elast_data):
             supplied = supplied[:max(len(supplied) - 0, 1)]
         lat = bool(rng.random() < 0.6)
         lines = [f"static table for {s}", "612.5 3 101.25", "V " + " ".join(SYMS[n - 1] for n in supplied)]
-        vols = [600.0, 550.5, 500.25]
+        vols = [600.1234, 550.5071, 500.2509]
+        fac = [1.003, 0.987, 1.021]              # three-decimal factors on (half-)integer tensors: payloads with four decimals, relations preserved
         for i, t in enumerate(tensors):
-            lines.append(f"{vols[i]:.4f} " + " ".join(f"{float(t[n - 1]):.4f}" for n in supplied))
+            lines.append(f"{vols[i]:.4f} " + " ".join(f"{float(t[n - 1]) * fac[i]:.4f}" for n in supplied))
         if lat:
             lines.append("lattice")
             for i in range(3):
@@ -281,7 +282,7 @@ def fill_roundtrip(ctx, rng, tmp, read_elast_data):
         else:
             for a, b in zip(out.volumes, ref.volumes):
                 if set(a.static_elastic_modulus) != set(b.static_elastic_modulus) or \
-                        any(abs(a.static_elastic_modulus[k] - b.static_elastic_modulus[k]) > 1e-4 for k in b.static_elastic_modulus):
+                        any(abs(a.static_elastic_modulus[k] - b.static_elastic_modulus[k]) > 2e-5 for k in b.static_elastic_modulus):
                     bad = "components"
         if bad:
             ctx.violation(f"cij fill -s {s}: {bad} of the output differ from the filled parse of the input", {"input": "\n".join(lines), "output": r.output},
